@@ -32,10 +32,10 @@ int v_choice(void);            /* next environment decision (0 when the budget i
 #else
 #  include <stdio.h>
 #  include <unistd.h>
-#  define V_ASSERT(c, msg)  do { if (!(c)) { fprintf(stderr, "REPLAY-ASSERT-FAIL: %s (%s:%d)\n", msg, __FILE__, __LINE__); fflush(stderr); _exit(97); } } while (0)
-#  define V_ASSUME(c)       do { if (!(c)) { fprintf(stderr, "REPLAY-ASSUME-FALSE: %s (%s:%d)\n", #c, __FILE__, __LINE__); fflush(stderr); _exit(98); } } while (0)
+#  define V_ASSERT(c, msg)  do { if (!(c)) { dprintf(2, "REPLAY-ASSERT-FAIL: %s (%s:%d)\n", msg, __FILE__, __LINE__); _exit(97); } } while (0)
+#  define V_ASSUME(c)       do { if (!(c)) { dprintf(2, "REPLAY-ASSUME-FALSE: %s (%s:%d)\n", #c, __FILE__, __LINE__); _exit(98); } } while (0)
 #  define V_HAVOC_IN()      do { } while (0)
-#  ifdef REPLAY
+#  if defined(REPLAY) && defined(V_ENTRY)      /* only the harness translation unit carries the inputs */
 #    include "replay_inputs.h"
 #    define V_DEFINE_IN     struct in_t IN = V_IN_INIT; void V_ENTRY(void); int main(void) { V_ENTRY(); return 0; }
 #  else
